@@ -161,5 +161,44 @@ func init() {
 				countStr(ss, "r, err := dc.ExchangeReserved(ctx, m)") == 1, true,
 				"PipelineTransport.ExchangeContext: every reservation obtained is handed to ExchangeReserved exactly once, with nothing in between that could return")
 		}
+		// ---- the transport's pick among its connections: every reservation it takes is the one it returns
+		gr := ex.fn("pkg/upstream/transport/pipeline.go", "PipelineTransport", "getReservedExchanger")
+		if gr != nil && len(gr.Body.List) >= 4 {
+			l := gr.Body.List
+			loop, dial, calls, assigns := "", "", 0, 0
+			for _, st := range l {
+				switch s := ex.str(st); {
+				case strings.HasPrefix(s, "for c := range t.conns "):
+					loop = s
+				case strings.HasPrefix(s, "if rxc == nil { c := newLazyDnsConn("):
+					dial = s
+				}
+			}
+			ast.Inspect(gr.Body, func(n ast.Node) bool {
+				if c, ok := n.(*ast.CallExpr); ok && strings.HasSuffix(ex.str(c.Fun), ".ReserveNewQuery") {
+					calls++
+				}
+				if a, ok := n.(*ast.AssignStmt); ok && len(a.Lhs) > 0 && len(a.Rhs) == 1 {
+					if _, isCall := a.Rhs[0].(*ast.CallExpr); isCall && ex.str(a.Lhs[0]) == "rxc" && strings.HasSuffix(ex.str(a.Rhs[0]), ".ReserveNewQuery()") {
+						assigns++
+					} else {
+						for _, lhs := range a.Lhs {
+							if ex.str(lhs) == "rxc" {
+								assigns += 100 // rxc is written by something else than a reservation
+							}
+						}
+					}
+				}
+				return true
+			})
+			maxAtt, okAtt := ex.constIn(gr.Body, "maxReserveAttempt", nil)
+			ex.setNat("c09PipelineMaxReserveAttempt", maxAtt, okAtt && strings.Contains(loop, "reserveAttempt++ if reserveAttempt > maxReserveAttempt { break }"),
+				"getReservedExchanger: the loop gives up after more than this many refusals")
+			ex.setBool("c09PipelinePickStopsAtFirstReservation",
+				loop == "for c := range t.conns { var closed bool rxc, closed = c.ReserveNewQuery() if closed { delete(t.conns, c) } if rxc != nil { break } else { reserveAttempt++ if reserveAttempt > maxReserveAttempt { break } } }" &&
+					strings.Contains(dial, " rxc, _ = c.ReserveNewQuery() ") && calls == 2 && assigns == 2 &&
+					ex.str(l[len(l)-1]) == "return rxc, isNewConn, err" && countStr(stmtStrings(ex, gr.Body), "return rxc, isNewConn, err") == 1,
+				true, "getReservedExchanger: both ReserveNewQuery results are assigned to rxc, the loop over the connections leaves at the first reservation it obtains, a connection is dialed only if rxc is still nil, rxc is what is returned (no reservation is taken and dropped)")
+		}
 	})
 }
